@@ -136,7 +136,7 @@ Qed.
 
 Lemma nth_error_expect : forall l tg it i0 s,
   nth_error (expect_all l tg it i0) s =
-  option_map (fun c => if existsb (Nat.eqb (i0 + s)) tg then c_expd c (expd c ++ [it]) else c) (nth_error l s).
+  option_map (fun c => c_expd c (expd c ++ repeat it (count_occ Nat.eq_dec tg (i0 + s)))) (nth_error l s).
 Proof.
   induction l as [|a l IH]; intros tg it i0 [|s]; cbn; try reflexivity.
   - rewrite Nat.add_0_r. reflexivity.
@@ -147,14 +147,14 @@ Lemma expect_ctl : forall l tg it s c', nth_error (expect_all l tg it 0) s = Som
   exists c, nth_error l s = Some c /\ same_ctl c c'.
 Proof.
   intros l tg it s c' H. rewrite nth_error_expect in H. destruct (nth_error l s) as [c|]; [|discriminate].
-  cbn in H. exists c. split; [reflexivity|]. destruct (existsb (Nat.eqb s) tg); inversion H; subst; repeat split; auto.
+  cbn in H. exists c. split; [reflexivity|]. inversion H; subst; repeat split; auto.
 Qed.
 
 Lemma expect_ctl' : forall l tg it s c, nth_error l s = Some c ->
   exists c', nth_error (expect_all l tg it 0) s = Some c' /\ same_ctl c c'.
 Proof.
   intros l tg it s c H. rewrite nth_error_expect, H. cbn.
-  destruct (existsb (Nat.eqb s) tg); eexists; (split; [reflexivity|repeat split; auto]).
+  eexists; (split; [reflexivity|repeat split; auto]).
 Qed.
 
 Lemma F_expect : forall st tg it, Inv2 st -> Inv2 (set_subs st (expect_all (subs st) tg it 0)).
